@@ -309,6 +309,8 @@ class Gen:
                                     'quals': self.quals({}, False, False),
                                     'params': params, 'override': False})
         r.shuffle(spec['props'])
+        if r.random() < 0.2:
+            spec['stale'] = True
         return spec
 
 
@@ -506,13 +508,19 @@ def mkquals(qd):
 
 
 def build_class(spec):
+    # 'stale': the elements still carry the class origin and propagated
+    # information of the class they were taken from (GetClass of another
+    # class, rename, CreateClass); the server derives both itself
+    stale = {'class_origin': 'StaleOrigin', 'propagated': True} \
+        if spec.get('stale') else {}
     props = []
     for p in spec['props']:
         q = dict(p['quals'])
         if p['override']:
             q['Override'] = p['name']
         props.append(CIMProperty(p['name'], None, type=p['type'],
-                                 is_array=p['array'], qualifiers=mkquals(q)))
+                                 is_array=p['array'], qualifiers=mkquals(q),
+                                 **stale))
     meths = []
     for me in spec['methods']:
         q = dict(me['quals'])
@@ -522,7 +530,8 @@ def build_class(spec):
                                qualifiers=mkquals(p['quals']))
                   for p in me['params']]
         meths.append(CIMMethod(me['name'], return_type=me['rtype'],
-                               parameters=params, qualifiers=mkquals(q)))
+                               parameters=params, qualifiers=mkquals(q),
+                               **stale))
     return CIMClass(spec['name'], properties=props, methods=meths,
                     superclass=spec['super'],
                     qualifiers=mkquals(spec['quals']))
